@@ -42,7 +42,9 @@ PROPS["_libs"] = {"number_harness.cpp": "-lgmp", "toa_harness.cpp": "-lgmp", "..
 PROPS["_deps"] = {"../fuzz/fuzz_parse.cpp": ["parse_harness.cpp"], "../fuzz/fuzz_ondemand.cpp": ["ondemand_harness.cpp"],
                   "../fuzz/fuzz_merge.cpp": ["lazy_harness.cpp", "schema_harness.cpp"],
                   "../fuzz/fuzz_number.cpp": ["number_harness.cpp"], "../fuzz/fuzz_string.cpp": ["string_harness.cpp"],
-                  "../fuzz/fuzz_history.cpp": ["mutation_harness.cpp"]}
+                  "../fuzz/fuzz_history.cpp": ["mutation_harness.cpp"],
+                  "../fuzz/fuzz_pool.cpp": ["pool_harness.cpp", "../fuzz/fuzz_streams.inc"], "../fuzz/fuzz_serialize.cpp": ["serialize_harness.cpp", "../fuzz/fuzz_streams.inc"],
+                  "../fuzz/fuzz_kernel.cpp": ["kernel_harness.cpp", "../fuzz/fuzz_streams.inc"]}
 FUZZ_ENV = {"ASAN_OPTIONS": "abort_on_error=1:detect_leaks=0:allocator_may_return_null=1:quarantine_size_mb=8"}
 
 
@@ -557,6 +559,9 @@ PROPS["C15"] = dict(
 
 # ------------------------------------------------------------------------------------------------ libFuzzer runs (thorough tier)
 for _p, _s in [("C01", "fuzz_parse.cpp"), ("C02", "fuzz_parse.cpp"), ("C03", "fuzz_parse.cpp"), ("C10", "fuzz_ondemand.cpp"),
-               ("C11", "fuzz_ondemand.cpp"), ("C19", "fuzz_merge.cpp"), ("C20", "fuzz_merge.cpp"), ("C04", "fuzz_number.cpp"), ("C05", "fuzz_string.cpp"), ("C12", "fuzz_history.cpp"), ("C13", "fuzz_history.cpp"), ("C18", "fuzz_history.cpp")]:
+               ("C11", "fuzz_ondemand.cpp"), ("C19", "fuzz_merge.cpp"), ("C20", "fuzz_merge.cpp"), ("C04", "fuzz_number.cpp"), ("C05", "fuzz_string.cpp"), ("C12", "fuzz_history.cpp"), ("C13", "fuzz_history.cpp"), ("C18", "fuzz_history.cpp"),
+               ("C16", "fuzz_pool.cpp"), ("C06", "fuzz_serialize.cpp"), ("C09", "fuzz_kernel.cpp"), ("C14", "fuzz_kernel.cpp")]:
     # a history is a few hundred checked operations: fewer, longer executions
-    PROPS[_p]["runs"].append(fuzz_run(_p, _s, runs=60000, max_len=4096) if _s == "fuzz_history.cpp" else fuzz_run(_p, _s))
+    PROPS[_p]["runs"].append(fuzz_run(_p, _s, runs=60000, max_len=4096) if _s == "fuzz_history.cpp" else
+                             fuzz_run(_p, _s, runs=15000, max_len=1024) if _s == "fuzz_pool.cpp" else
+                             fuzz_run(_p, _s, runs=100000, max_len=1024) if _s in ("fuzz_serialize.cpp", "fuzz_kernel.cpp") else fuzz_run(_p, _s))
